@@ -238,6 +238,7 @@ impl G<'_> {
         let fd = if self.rng.chance(30) { self.rng.pick(&["0", "1", "2", "3", "9", "12"]).to_string() } else { String::new() };
         match self.rng.below(10) {
             0..=4 => format!("{fd}{}{}", self.rng.pick(&["<", ">", ">>", ">|", "<>"]), self.word(depth.min(1))),
+            5 if self.rng.chance(25) => format!("{fd}>>|{}", self.rng.pick(&["4", "0", "$fd", "12"])),
             5 => format!("{fd}{}{}", self.rng.pick(&["<&", ">&"]), self.rng.pick(&["1", "2", "-", "$fd"])),
             6 | 7 => {
                 let (op, delim, quoted) = *self.rng.pick(&[("<<", "EOF", false), ("<<-", "END", false), ("<<", "'E'", true), ("<<", "\\X", true), ("<<-", "\"Q\"", true)]);
